@@ -186,3 +186,33 @@ def validate_trace_slot(sem, path, tag, deviations=(), timeout=1500, heap="3g", 
             try: os.remove(pf)
             except OSError: pass
     return tot
+
+
+def build_tsan():
+    """bin/wire and the library compiled with clang++ -fsanitize=thread into BUILD/tsan (thorough tier only; the harness Makefile has no such variant).
+    Returns the path of the binary, or None with a reason when the toolchain cannot do it."""
+    import concurrent.futures as cf, glob, shutil
+    cxx = shutil.which("clang++") or shutil.which("clang++-14")
+    if not cxx: return None, "no clang++"
+    root = os.path.join(vlib.BUILD, "tsan"); exe = os.path.join(root, "bin", "wire")
+    srcs = [f for d in ("dataio", "iogateway", "message", "reflector", "regex", "syslog", "system", "util", "zlib") for f in sorted(glob.glob(os.path.join(vlib.REPO, d, "*.cpp"))) if "SSL" not in f]
+    srcs.append(os.path.join(vlib.VERIF, "harness", "wire.cpp"))
+    flags = ["-std=c++11", "-g1", "-O1", "-w", "-fsanitize=thread", "-I" + vlib.REPO, "-I" + os.path.join(vlib.VERIF, "harness"), "-DMUSCLE_VERIF_HOOKS", "-DMUSCLE_ENABLE_ZLIB_ENCODING", "-DMUSCLE_NO_EXCEPTIONS"]
+    objs = []
+
+    def cc(src):
+        rel = os.path.relpath(src, vlib.REPO if src.startswith(vlib.REPO) else vlib.VERIF).replace("/", "_")
+        obj = os.path.join(root, "obj", rel + ".o"); objs.append(obj)
+        if os.path.exists(obj) and os.path.getmtime(obj) >= os.path.getmtime(src): return None
+        os.makedirs(os.path.dirname(obj), exist_ok=True)
+        r = subprocess.run([cxx] + flags + ["-c", src, "-o", obj], stdout=subprocess.PIPE, stderr=subprocess.STDOUT, text=True)
+        return None if r.returncode == 0 else "%s: %s" % (src, r.stdout[-600:])
+    with cf.ThreadPoolExecutor(max_workers=min(12, vlib.NCPU)) as ex: errs = [e for e in ex.map(cc, srcs) if e]
+    if errs: return None, "clang++ -fsanitize=thread does not compile the tree: " + errs[0]
+    os.makedirs(os.path.dirname(exe), exist_ok=True)
+    lib = os.path.join(root, "libmuscle.a"); wire_o = [o for o in objs if o.endswith("harness_wire.cpp.o")]
+    if os.path.exists(lib): os.remove(lib)
+    subprocess.run(["ar", "rcs", lib] + [o for o in objs if o not in wire_o], check=True)          # an archive: only the members that are needed get linked
+    r = subprocess.run([cxx, "-fsanitize=thread"] + wire_o + [lib, "-lz", "-lutil", "-lpthread", "-o", exe], stdout=subprocess.PIPE, stderr=subprocess.STDOUT, text=True)
+    if r.returncode != 0: return None, "link failed: " + r.stdout[-600:]
+    return exe, None
